@@ -42,9 +42,15 @@ pub uninterp spec fn lock_bytes(id: u32) -> Seq<u8>;
 pub fn stop_poll(flag: &Arc<AtomicBool>, Tracked(w): Tracked<&mut World>) -> (r: bool)
     ensures
         final(w).stop_seen == (old(w).stop_seen || r),
+        final(w).poll_fresh,
         final(w).fs == old(w).fs, final(w).log == old(w).log,
         same_but_fs(World { stop_seen: final(w).stop_seen, ..*old(w) }, *final(w)),
 { unimplemented!() }
+
+// ghost bookkeeping: starting a file consumes the poll (C18.poll: the flag is polled before EACH file)
+pub proof fn consume_poll(tracked w: &mut World)
+    ensures *final(w) == (World { poll_fresh: false, ..*old(w) })
+{ admit(); }
 
 // the run's single ID counter is created once
 pub proof fn axiom_counter_new(tracked w: &mut World, v: u32)
